@@ -60,11 +60,16 @@ func init() {
 		}
 		return "ok " + cut(reg) + " " + cut(dereg)
 	})
-	registerOp("ngplmn", func(a []string) string {
+	ngplmn := func(a []string) string {
 		imsi := string(aHex(a[0]))
 		mncLen := int(aI64(a[1]))
 		mobilePLMN := stgutg.EncodeSuci([]byte(strings.TrimPrefix(imsi, "imsi-")), mncLen).Buffer[1:4]
 		gnb, bc := ngSetupPlmns(ngapTestpacket.BuildNGSetupRequest(mobilePLMN))
+		if len(a) == 4 {
+			// ngplmn2: the SUCI of another subscriber (possibly of another PLMN) is encoded after NG Setup, as RegisterUE /
+			// DeregisterUE do for every UE; the PLMN announced at NG Setup must still be the one in every later message
+			stgutg.EncodeSuci(aHex(a[2]), int(aI64(a[3])))
+		}
 		// later messages of the same run: every PLMNIdentity inside the emulator-path messages that carry a user
 		// location information (NR-CGI and TAI) copies the package variable TestPlmn
 		ium := ngapTestpacket.BuildInitialUEMessage(1, []byte{0x7e}, "")
@@ -94,7 +99,9 @@ func init() {
 			}
 		}
 		return "ok " + hx(gnb) + " " + hx(bc) + " " + hx(cgi) + " " + hx(tai)
-	})
+	}
+	registerOp("ngplmn", ngplmn)
+	registerOp("ngplmn2", ngplmn)
 	registerOp("ngsetup", func(a []string) string {
 		imsi, mnc := string(aHex(a[0])), string(aHex(a[1]))
 		fds, err := syscall.Socketpair(syscall.AF_UNIX, syscall.SOCK_SEQPACKET, 0)
@@ -197,6 +204,11 @@ func suciCase(e *emitter, mcc, mnc string, msinLen int) {
 		e.op("nassuci", tx(imsi), i(int64(len(mnc))))
 	}
 	e.op("ngplmn", tx(imsi), i(int64(len(mnc))))
+	if e.rng.Intn(3) == 0 {
+		// a subscriber of another PLMN registers after NG Setup
+		mnc2 := digits(e, 2+e.rng.Intn(2))
+		e.op("ngplmn2", tx(imsi), i(int64(len(mnc))), tx(digits(e, 3)+mnc2+digits(e, 1+e.rng.Intn(10))), i(int64(len(mnc2))))
+	}
 	e.op("plmn2nas", tx(mcc), tx(mnc))
 }
 
